@@ -355,7 +355,7 @@ func genSpec(extreme bool) *rapid.Generator[*fontSpec] {
 		} else {
 			s.NameMode = weighted(t, "NameMode", 2, 1, 1, 1, 2, 2, 3, 1)
 			s.NameSeed = rapid.Uint64().Draw(t, "NameSeed")
-			s.EncMode = weighted(t, "EncMode", 2, 2, 1, 2, 2, 3, 3)
+			s.EncMode = weighted(t, "EncMode", 2, 2, 1, 2, 2, 3, 3, 3)
 			s.EncSeed = rapid.Uint64().Draw(t, "EncSeed")
 			maxEnc := s.N - 1
 			if maxEnc > 256 {
